@@ -32,10 +32,28 @@ def path_fields(ctx: Context) -> list[tuple[ClassInfo, str]]:
     return out
 
 
+_CONSTS: dict[str, ast.AST] = {}
+
+
+def set_module_consts(ctx: Context) -> None:
+    """String constants of the modules that hold path guards (so that
+    `_PARENT_DIRECTORY in v.parts` is read as `'..' in v.parts`)."""
+    from sa.norm import module_consts
+    _CONSTS.clear()
+    for m in ctx.repo.hand_written():
+        _CONSTS.update(module_consts(m))
+
+
+def _lit(e: ast.AST) -> ast.AST:
+    if isinstance(e, ast.Name) and e.id in _CONSTS:
+        return _CONSTS[e.id]
+    return e
+
+
 def path_atom(e: ast.AST) -> str | None:
     """Role of a sub-expression in a path guard."""
     if isinstance(e, ast.Compare) and len(e.ops) == 1:
-        l, r = e.left, e.comparators[0]
+        l, r = _lit(e.left), _lit(e.comparators[0])
         if isinstance(e.ops[0], (ast.In, ast.NotIn)) and const_str(l) == ".." \
                 and isinstance(r, ast.Attribute) and r.attr == "parts":
             return "dotdot" if isinstance(e.ops[0], ast.In) else "no_dotdot"
@@ -113,6 +131,7 @@ def run(ctx: Context, rep) -> None:
         "returns its argument when both are false; the writer's "
         "sub-directory argument has the same two-atom guard before it is "
         "stored")
+    set_module_consts(ctx)
     fields = path_fields(ctx)
     if len(fields) < PATH_FIELDS_FLOOR:
         raise AnalysisError(f"C17.validate: {len(fields)} Path fields found, "
